@@ -394,7 +394,7 @@ def mk_sens_slope(x):
     d = np.ones(nd)
     for i in range(n - 1):
         for j in range(i + 1, n):
-            d[ix] = (x[j] - x[i]) / (j - i)
+            d[ix] = (np.float64(x[j]) - np.float64(x[i])) / (j - i)
             ix += 1
 
     slope = np.nanmedian(d)
